@@ -29,6 +29,16 @@ INFO = {
     "C05-2": ("has_pending_events_for_caching... answers for the first context with an empty buffer only", "an idle context registered before thread A, A's queue read partially (hard limit), batch mode, a younger statement of thread B cached"),
     "C06-2": ("Flush events exempt from the grace-period hold-back", "another thread's completed statement still younger than the grace period when the flush is read"),
     "C08-2": ("size cache cleared at the end of encode() (same mechanism as seed C04)", "dropping queue: refused statement with cached sizes, then an accepted one with a different cached size"),
+    "C01-2": ("empty() reloads the writer position relaxed but still stores it into the shared reader-side cache; prepare_read() inlines its own check", "consumer caught up, producer commits, the consumer's next look is empty() and then prepare_read(): payload read without an acquire (C++11 model; invisible on x86)"),
+    "C02-2": ("_read_next_queue() no longer probes the old buffer once more before switching", "record committed to the old buffer and a switch published between the consumer's empty probe and its load of next"),
+    "C03-2": ("_exit() drain loop breaks when a populate pass returns 0", "backend exit path entered while every queued record is younger than the grace period (nothing cached)"),
+    "C09-2": ("commit_read publishes the reader position only when a 'drained' flag says so", "blocking queue, a statement that needs bytes the consumer has read but not published"),
+    "C10-2": ("named_args->clear() moved from the event fetch into _process_transit_event", "a named-arg statement whose processing throws (e.g. backtrace level without init_backtrace), then another statement reusing the same transit slot"),
+    "C11-2": ("Codec<std::pair>::compute_encoded_size binds the pair by value", "a std::pair argument (direct or nested) with a heap-owning member, e.g. a 16-character std::string"),
+    "C12-2": ("PatternFormatterOptions::operator== ignores add_metadata_to_multi_line_logs", "two loggers whose options differ only in that flag; the one dispatched second adopts the first's formatter; a multi-line message without named args"),
+    "C16-2": ("override-formatted line of one sink leaks to the following sinks", "a sink with an override pattern followed by a sink without one on the same logger"),
+    "C18-2": ("backtrace flush decision uses macro_metadata->log_level() instead of the event's level", "a dynamic-level statement below the flush level on a logger with stored backtrace statements"),
+    "C20-2": ("context cache rebuild skips contexts that are already invalid and empty", "thread A exits and is fully drained in a non-idle pass, a new thread registers before the next idle pass: A is never in the cache again and never reclaimed"),
     "C17-2": ("SinkManager::_insert_sink uses upper_bound", "a sink expires without a logger removal, the same sink name is created again and looked up before any logger is removed"),
 }
 for name, (change, needs) in INFO.items():
